@@ -257,7 +257,8 @@ let run_case (toks : string list) : string =
       suite_name := "sha";
       let b = t_bytes (a 1) in
       (match a 0 with
-       | "pk" -> w r_dec_pk false b | "sk" -> w r_dec_sk false b | "sig" -> w r_dec_sig false b
+       | "pk" | "pktrait" | "pkenc" | "pkinhenc" -> w r_dec_pk false b
+       | "sk" | "sktrait" | "skenc" | "skinhenc" -> w r_dec_sk false b | "sig" -> w r_dec_sig false b
        | "proof" -> w r_dec_proof false b | "zkpok" -> w r_dec_zkpok false b
        | "commit" -> w r_dec_commit false b | "blind" -> w r_dec_blind false b
        | "msg" -> w r_dec_blind false b
